@@ -91,6 +91,14 @@ func (d *Ar) Next() (*ArEntry, error) {
 		return nil, err
 	}
 
+	if entry.Size > 0 {
+		// the last byte of the member has to be there, or Data would come up short
+		last := make([]byte, 1)
+		if n, err := d.in.ReadAt(last, d.offset+int64(count)+entry.Size-1); n != 1 {
+			return nil, fmt.Errorf("ar member %q is cut short: %v", entry.Name, err)
+		}
+	}
+
 	entry.Data = io.NewSectionReader(d.in, d.offset+int64(count), entry.Size)
 	d.offset += int64(count) + entry.Size + (entry.Size % 2)
 
